@@ -14,6 +14,34 @@ import (
 
 // call executes a call instruction and returns its result values.
 func (ex *Exec) call(fr *Frame, st *State, site ssa.Instruction, c *ssa.CallCommon) []Val {
+	if ex.nilSweep() {
+		// dereferences made by the call itself: the interface receiver, the function value
+		if c.IsInvoke() {
+			if recv, ok := ex.operand(fr, c.Value).(*Agg); ok && len(recv.F) == 2 {
+				if tg, ok := recv.F[0].(*Term); ok {
+					ex.derefCheck(fr, st, tg, site.Pos(), c.Value.Name()+"."+c.Method.Name())
+				}
+			}
+		} else if _, isB := c.Value.(*ssa.Builtin); !isB {
+			if t, ok := ex.operand(fr, c.Value).(*Term); ok && t.Sort == SPtr {
+				ex.derefCheck(fr, st, t, site.Pos(), c.Value.Name())
+			}
+		}
+	}
+	rets := ex.call1(fr, st, site, c)
+	if _, isB := c.Value.(*ssa.Builtin); !isB {
+		optOut := false
+		if sc := c.StaticCallee(); sc != nil {
+			if con := ex.contractFor(sc); con != nil && con.MayReturnNil {
+				optOut = true
+			}
+		}
+		ex.afterCall(c.Signature(), rets, "result of "+ex.prog.callFunText(site.Pos())+" before its error was checked", optOut)
+	}
+	return rets
+}
+
+func (ex *Exec) call1(fr *Frame, st *State, site ssa.Instruction, c *ssa.CallCommon) []Val {
 	var args []Val
 	for _, a := range c.Args {
 		args = append(args, ex.operand(fr, a))
